@@ -3,10 +3,13 @@
 // writes what both endpoints concluded.  The Lean oracle (model + spec) judges every line.
 //
 // case     : stack= suite= auth= resume= edit= [dir= rec= off= mask= inj=]  (the identity of the case)
-//            [rtype= msg= field= orig=]                                      (resolved on the real record)
+//
+//	[rtype= msg= field= orig=]                                      (resolved on the real record)
+//
 // observed : c=<completed|failed(class)> s=<…> stall=0|1 panic=0|1
-//            and when both completed: cv=<view> sv=<view>   (see viewString)
-//            for edit=none also: lay=<c2s records>/<s2c records>
+//
+//	and when both completed: cv=<view> sv=<view>   (see viewString)
+//	for edit=none also: lay=<c2s records>/<s2c records>
 package main
 
 import (
@@ -37,6 +40,7 @@ type config struct {
 	auth   bool
 	resume bool
 	sni    bool // the server chooses its configuration (certificates) by SNI through GetConfigForClient
+	bare   bool // no application protocols on either side: the ServerHello carries no extension block
 }
 
 func (c config) String() string {
@@ -44,9 +48,14 @@ func (c config) String() string {
 	if c.sni {
 		s += " sni=1"
 	}
+	if c.bare {
+		s += " bare=1"
+	}
 	return s
 }
-func (c config) ecdhe() bool { return c.suite == tlcp.ECDHE_SM4_GCM_SM3 || c.suite == tlcp.ECDHE_SM4_CBC_SM3 }
+func (c config) ecdhe() bool {
+	return c.suite == tlcp.ECDHE_SM4_GCM_SM3 || c.suite == tlcp.ECDHE_SM4_CBC_SM3
+}
 
 func b2i(b bool) int {
 	if b {
@@ -157,6 +166,12 @@ func tlcpConfigs(cf config) (*tlcp.Config, *tlcp.Config, *[]uint8, *[]uint8, *bo
 	if cf.resume {
 		scfg.SessionCache = tlcp.NewLRUSessionCache(8)
 	}
+	if cf.bare {
+		// no ALPN and no server name (the client then cannot check the host name): neither hello
+		// needs an extension the other answers, the ServerHello has no extension block at all
+		ccfg.NextProtos, scfg.NextProtos = nil, nil
+		ccfg.ServerName, ccfg.InsecureSkipVerify = "", true
+	}
 	if cf.sni {
 		// virtual hosting: "test.example" is served by this configuration, every other name by
 		// a second identity (valid for the same names, so that a verifying client accepts it)
@@ -194,6 +209,7 @@ func runTLCP(cf config, ed edit) outcome {
 		*calerts, *salerts = nil, nil
 	}
 	n := newNet(ed)
+	n.ecdhe = cf.ecdhe()
 	n.start()
 	ce, se := n.ends()
 	c, s := tlcp.Client(ce, ccfg), tlcp.Server(se, scfg)
@@ -357,6 +373,22 @@ func describe(n *mnet, cf config, dtls bool) string {
 			name = "beyond:" + name
 		}
 		return fmt.Sprintf("rtype=%s msg=%s field=%s old=%d new=%d", fm.rtype, fm.msg, name, n.lenOld, n.lenNew)
+	case "splice":
+		// the message the splice lies in, and (datagram ClientHello) whether it carries a cookie
+		msg, cookie, name := fm.msg, "-", ed.op
+		if fm.rtype == "hs" && ed.m < len(fm.msgs) {
+			msg = fm.msgs[ed.m].name
+			if fm.msgs[ed.m].cookieLen >= 0 {
+				cookie = strconv.Itoa(fm.msgs[ed.m].cookieLen)
+			}
+		} else {
+			name = "beyond:" + name
+		}
+		if !n.applied && !strings.HasPrefix(name, "beyond:") {
+			name = "beyond:" + name
+		}
+		return fmt.Sprintf("rtype=%s msg=%s field=%s at=%d del=%d ins=%s fix=%s cookie=%s", fm.rtype, msg, name,
+			ed.off, ed.del, hexOrDash(ed.ins), fixString(ed.fix), cookie)
 	}
 	return fmt.Sprintf("rtype=%s msg=%s field=-", fm.rtype, fm.msg)
 }
@@ -428,6 +460,12 @@ func sameKind(n *mnet, d int, dtls bool) int {
 			k += fmt.Sprintf(".%d.%d", b[3], b[4])
 			if b[0] == 22 && b[3] == 0 && b[4] == 0 && len(b) > hl {
 				k += fmt.Sprintf(".%d", b[hl])
+				if b[hl] == 1 {
+					// a ClientHello without a cookie and one with a cookie are different messages
+					if fm := mapRecord(b, true, false, false); len(fm.msgs) > 0 && fm.msgs[0].cookieLen > 0 {
+						k += ".cookie"
+					}
+				}
 			}
 		} else if b[0] == 22 && len(b) > hl {
 			k += fmt.Sprintf(".%d", b[hl])
@@ -437,6 +475,23 @@ func sameKind(n *mnet, d int, dtls bool) int {
 	cnt := 0
 	for _, r := range n.seen[d] {
 		if key(r.raw) == key(t) {
+			cnt++
+		}
+	}
+	return cnt
+}
+
+// countHVR: HelloVerifyRequest records the server wrote in this run (datagram stack).
+func countHVR(n *mnet, dtls bool) int {
+	if !dtls {
+		return 0
+	}
+	n.mu.Lock()
+	defer n.mu.Unlock()
+	cnt := 0
+	for _, r := range n.seen[dirS2C] {
+		b := r.raw
+		if len(b) > 13 && b[0] == 22 && b[3] == 0 && b[4] == 0 && b[13] == 3 {
 			cnt++
 		}
 	}
@@ -461,6 +516,8 @@ func (j job) ident() string {
 		s += fmt.Sprintf(" dir=%s rec=%d off=%d w=%d op=%s", dirName(j.ed.dir), j.ed.rec, j.ed.off, j.ed.w, j.ed.op)
 	case "trunc":
 		s += fmt.Sprintf(" dir=%s rec=%d off=%d", dirName(j.ed.dir), j.ed.rec, j.ed.off)
+	case "splice":
+		s += fmt.Sprintf(" dir=%s rec=%d m=%d op=%s", dirName(j.ed.dir), j.ed.rec, j.ed.m, j.ed.op)
 	case "inject":
 		s += fmt.Sprintf(" dir=%s rec=%d inj=%s", dirName(j.ed.dir), j.ed.rec, j.ed.inj)
 	default:
@@ -485,6 +542,8 @@ func parseJob(desc string) (job, bool) {
 	j.cf.auth = hx.KVInt(desc, "auth") == 1
 	j.cf.resume = hx.KVInt(desc, "resume") == 1
 	j.cf.sni = hx.KVInt(desc, "sni") == 1
+	j.cf.bare = hx.KVInt(desc, "bare") == 1
+	j.ed.m = hx.KVInt(desc, "m")
 	j.ed.w = hx.KVInt(desc, "w")
 	j.ed.op, _ = hx.KV(desc, "op")
 	j.ed.kind, _ = hx.KV(desc, "edit")
@@ -572,8 +631,11 @@ func run(j job) (string, string) {
 	if j.ed.kind == "none" {
 		obs += " lay=" + o.lay
 	}
-	if (j.ed.kind == "flip" || j.ed.kind == "setlen") && o.net != nil {
+	if (j.ed.kind == "flip" || j.ed.kind == "setlen" || j.ed.kind == "splice") && o.net != nil {
 		obs += fmt.Sprintf(" same=%d", sameKind(o.net, j.ed.dir, j.cf.stack == "dtlcp"))
+	}
+	if j.ed.kind == "splice" && o.net != nil {
+		obs += fmt.Sprintf(" hvr=%d", countHVR(o.net, j.cf.stack == "dtlcp"))
 	}
 	return id, obs
 }
@@ -595,6 +657,9 @@ func configs(stack string) []config {
 	}
 	// virtual hosting by SNI (GetConfigForClient): one configuration per stack
 	out = append(out, config{stack: stack, suite: tlcp.ECC_SM4_GCM_SM3, sni: true})
+	// no application protocol negotiated: a ServerHello without any extension block (full and resumed)
+	out = append(out, config{stack: stack, suite: tlcp.ECC_SM4_GCM_SM3, bare: true})
+	out = append(out, config{stack: stack, suite: tlcp.ECC_SM4_CBC_SM3, bare: true, resume: true})
 	return out
 }
 
@@ -644,6 +709,13 @@ func generate(cf config, base outcome, tier string, rnd *hx.Rand) []job {
 				}
 				for _, op := range []string{"p1", "m1", "p2", "m2", "zero", "max"} {
 					jobs = append(jobs, job{cf: cf, ed: edit{kind: "setlen", dir: d, rec: i, off: f.start, w: f.end - f.start, op: op}})
+				}
+			}
+			// structure-preserving insertions / deletions / reorderings inside handshake messages,
+			// every enclosing length fixed up
+			if fm.rtype == "hs" {
+				for _, e := range spliceEdits(fm, r.raw, d, i) {
+					jobs = append(jobs, job{cf: cf, ed: e})
 				}
 			}
 			jobs = append(jobs, job{cf: cf, ed: edit{kind: "drop", dir: d, rec: i}})
